@@ -13,6 +13,9 @@ for pid in props:
         na.append({"property_id": pid, "reason": "check not built yet in this phase (design in DESIGN.md section 3); the technique applies"})
         continue
     m = importlib.import_module("mc.props." + pid.lower())
+    if not getattr(m, "READY", False):
+        na.append({"property_id": pid, "reason": "check under construction in this phase (design in DESIGN.md section 3); the technique applies"})
+        continue
     checks.append({
         "property_id": pid,
         "quick_cmd": "./run %s --tier quick" % pid,
